@@ -482,6 +482,9 @@ def run_target(target, findings=(), seed=0, do_diff=True):
         explore(run, max_paths=target.max_paths, on_path=on_path)
     except Unsupported as e:
         res["unsupported"] = str(e)
+        if "time budget" in str(e):
+            res["wall"] = time.time() - t0
+            return res
     except (EngineError, Exception) as e:     # noqa
         res["engine_error"] = "%s\n%s" % (e, traceback.format_exc())
     res["known"] = list(known_hit.values())
